@@ -95,4 +95,19 @@ TEXTS = {
         "level_text": "All 142 596 constraint tables with <= 3 entries (every order, every split over two add_constraints calls) are probed at 99 (gap, distance) points each; Sort and VisualSort histories with teleporting / re-appearing objects are run unconstrained, with non-binding and with random binding tables: equality (bit-exact) for non-binding ones, distance-limit invariant and assignment optimality among admissible pairs for binding ones.",
         "level_note": "Table part is exhaustive for the stated alphabet; tracker histories are sampled.",
     },
+    "C04": {
+        "technique": "runtime differential monitor: interleaved multi-scene run vs fresh single-scene replays of each scene's projection (id bijection, bit-exact numbers) + lifecycle model; explain-divergence oracle for near ties",
+        "level_text": "Sort and VisualSort histories of 30..90 calls over 2..4 scenes, 60% with all scenes occupying the same image region; each scene's records are compared call by call with a fresh tracker fed only that scene's calls; cross-scene attachments are additionally caught by the lifecycle model.",
+        "level_note": "Batch kinds are covered through C06 (refinement of the simple kinds). A grouping difference is only accepted as a tie when both outcomes pass the C02/C12 reference on their own pre-states; such ties are counted and capped at 0.1% of compared calls.",
+    },
+    "C05": {
+        "technique": "runtime differential monitor under controlled schedules: 1-shard reference vs shard counts 2..8 x {free, seeded delay plans, gate scripts forcing a worker to deliver its distance chunks last/first}; Miri many-seeds (thorough)",
+        "level_text": "Every history is re-run for each shard count 2..8 under 3 (quick) / 6 (thorough) schedules; records incl. track ids must be identical. Thousands of distinct chunk-arrival orders are observed per quick run (reported). Near-tie divergences are recognised by the reference objective and counted.",
+        "level_note": "Sees only the schedules it produces (forced arrival orders at command granularity, random delays, Miri's scheduler in the thorough tier).",
+    },
+    "C06": {
+        "technique": "runtime differential + exactly-once history checker + quiescence-based deadlock detector under delay/stall plans at the batch and voting schedule points, with both allowed retrieval disciplines; Miri many-seeds and TSan (thorough)",
+        "level_text": "Hundreds (quick) to thousands (thorough) of batch sequences over 1..5 scenes, 1..4 x 1..4 workers, five schedule families incl. targeted stalls at vote.result.send / batch.scene.dispatched / vote.monitor.dec, same-thread and consumer-thread retrieval (next batch submitted while the previous one is still being drained); per scene the batch tracker must refine Sort / VisualSort; each batch must deliver exactly one in-order result per scene; predict / get / Drop must complete - a hang is decided by observing quiescence (all threads sleeping, no CPU time, no hook events for 4 s), not by a timeout.",
+        "level_note": "Absence of deadlock is claimed only for the observed schedules; the explicit-state exploration named in the property's quantifier belongs to another technique family and is not done (DESIGN.md section 8).",
+    },
 }
